@@ -412,6 +412,30 @@ pub fn run(tier: Tier) -> i32 {
         keyed!(i128, [i128::MIN, i64::MIN as i128 - 1, u64::MAX as i128 + 1, i128::MAX]);
         keyed!(u128, [0, u64::MAX as u128 + 1, i128::MAX as u128, i128::MAX as u128 + 1, u128::MAX]);
     }
+    // a map with several non-convertible entries: the extraction fails, and fails the same way
+    // every time (which entry is blamed must not depend on hashing or iteration luck)
+    {
+        use std::collections::{BTreeMap, HashMap};
+        let bad_map: Value = Value::Map(
+            [("a", Value::String("x".into())), ("b", Value::None), ("c", Value::Float(1.5)), ("d", Value::Vec(vec![])), ("e", Value::Bool(true)), ("f", Value::Int(i64::MAX as i128 + 1)), ("ok", Value::Int(1))]
+                .into_iter()
+                .map(|(k, v)| (k.to_string(), v))
+                .collect(),
+        );
+        let mut seen_h: std::collections::BTreeSet<String> = Default::default();
+        let mut seen_b: std::collections::BTreeSet<String> = Default::default();
+        for _ in 0..64 {
+            acc.count("executions", 2);
+            seen_h.insert(format!("{:?}", catch(|| HashMap::<String, i64>::try_from(bad_map.clone()).map(|m| m.len()).map_err(|e| format!("{e:?}")))));
+            seen_b.insert(format!("{:?}", catch(|| BTreeMap::<String, i64>::try_from(bad_map.clone()).map(|m| m.len()).map_err(|e| format!("{e:?}")))));
+        }
+        for (which, seen) in [("HashMap", &seen_h), ("BTreeMap", &seen_b)] {
+            if seen.len() != 1 || !seen.iter().all(|s| s.starts_with("Ok(Err(")) {
+                bad(&mut acc, format!("map-extraction-determinism/{which}"), format!("{which}<String, i64>::try_from on a map with six non-convertible entries gave {} different results over 64 runs: {:?}", seen.len(), seen.iter().take(3).collect::<Vec<_>>()));
+            }
+        }
+        acc.outcome("map-extraction-determinism");
+    }
     // floats
     for f in [0.0f64, -0.0, 1.5, f64::MAX, f64::MIN_POSITIVE, 5e-324, f64::INFINITY, f64::NEG_INFINITY, f64::NAN, 0.1, 1e300] {
         acc.count("executions", 1);
